@@ -151,7 +151,7 @@ def info(tier):
         "name order) and random problems (generated objective + 0-3 generated relations); Problem.variables / n_variables / "
         "get_bounds / domains compared with the recipe-level syntactic set, an independent natural sort and the declarations; "
         "distinct = canonical problem hashes" % len(shortcut_cases()),
-        "required_cells": sorted({c for c, _, _, _ in shortcut_cases()}) + ["name-stress", "random", "deep-objective", "deep-objective-exclusive-vector", "history", "shortcut:element-bound-edited", "names:re-declared-with-another-domain", "shared-objective-object"],
+        "required_cells": sorted({c for c, _, _, _ in shortcut_cases()}) + ["name-stress", "random", "deep-objective", "deep-objective-exclusive-vector", "history", "shortcut:element-bound-edited", "names:re-declared-with-another-domain", "shared-objective-object", "huge-vector-order"],
         "assumptions": ["'mentioned' = syntactic occurrence in the recipe (x*0 still mentions x)"],
     }
 
@@ -249,6 +249,9 @@ def run(ctx, rec):
     for k_ in range(32):
         if ctx.mine(k_):
             run_shared_objects(rec, rng, k_)
+    for k_, n_ in enumerate((10030, 100010 if ctx.tier == "thorough" else 10011, 1002)):
+        if ctx.mine(k_ + 5):
+            run_huge_vector(rec, n_)
     n = 0
     while n < N_RANDOM[ctx.tier] and not rec.out_of_time():
         n += 1
@@ -348,6 +351,24 @@ def run_shared_objects(rec, rng, k):
     ov = sorted(v.name for v in obj_e.get_variables())
     if ov != sorted(SC.mentioned({"decls": decls, "objective": obj, "constraints": []})):
         rec.violation("expression-variables-changed-by-a-problem-that-used-it", {"show": show, "got": ov})
+
+
+def run_huge_vector(rec, n):
+    """Natural order has no width limit: x[9999] < x[10000] < x[10001], and x[1000] long before them."""
+    import numpy as np
+    import optyx
+
+    rec.case({"huge-vector": n})
+    x = optyx.VectorVariable("x", n, lb=0.0, ub=1.0)
+    for label, P in (("single-vector", optyx.Problem().minimize(np.arange(1.0, n + 1.0) @ x)),
+                     ("general-path", optyx.Problem().minimize(np.arange(1.0, n + 1.0) @ x + optyx.Variable("zz")).subject_to(x[0] + x[n - 1] >= 0.5))):
+        got = [v.name for v in P.variables]
+        want = [f"x[{i}]" for i in range(n)] + (["zz"] if label == "general-path" else [])
+        rec.cmp(1, "huge-vector-order")
+        if got != want:
+            first = next((i for i, (g_, w_) in enumerate(zip(got, want)) if g_ != w_), min(len(got), len(want)))
+            rec.violation("variables-not-in-natural-order", {"show": {"model": f"{label}: c @ x with x = VectorVariable('x', {n})"}, "first_difference_at": first,
+                                                           "got": got[max(0, first - 2): first + 3], "want": want[max(0, first - 2): first + 3]})
 
 
 def run_history(rec, rng):
